@@ -20,7 +20,7 @@
      - that each stage returns every minimiser of its objective (C02-C05) and that the objective of the planted combination is its
        fit error: the minor objective also has the phase term, which is not 0 on error-free reads for insertion alleles
        (DESIGN.md section 5 item 7), and the penalties for additions/omissions. *)
-From Aldy Require Import Base Consts Select SelectProofs Pipeline PipelineProofs Consts_here Consts_wf.
+From Aldy Require Import Base Consts Select SelectProofs Pipeline PipelineProofs Consts_here Consts_wf Exprs_cov Tied_cov_pipe.
 Import List.
 Open Scope Z_scope.
 
@@ -84,3 +84,13 @@ Qed.
 
 Example C01_example_fit : (fit_error ex_rows ex_planted == 0)%Q /\ (fit_error ex_rows ex_wrong == 3)%Q.
 Proof. split; vm_compute; reflexivity. Qed.
+
+(* ================================================================= tie to the current source tree
+   The decision expressions below are regenerated from /repo's Python AST on every run (harness/gen_exprs.py -> gen/Exprs_cov.v);
+   each theorem says that the model's definition IS that expression, for all arguments.  A change of the expression in the code
+   breaks the obligation even when no sampled input distinguishes old and new behaviour. *)
+Theorem C01_tie_single_copy : forall (A : Type) (r : @Pipeline.row A), r_cn r <> 0%Z ->
+  Pipeline.single_copy r = single_copy_val (r_total r) (inZ (r_cn r)).
+Proof. exact single_copy_pipeline_tied. Qed.
+Goal True. idtac "ASSUME C01_tie_single_copy". Abort.
+Print Assumptions C01_tie_single_copy.
